@@ -226,7 +226,7 @@ def spec_verdict(line, obs):
     r = p.stdout.readline().strip()
     try:
         v = vlib.parse_val(r)
-        v = v if isinstance(v, list) and len(v) in (0, 2) and v != [9] else None
+        v = v if isinstance(v, list) and len(v) in (0, 2) and v != [-9999] else None
     except Exception:
         v = None
     if len(_cache) > 200000:
@@ -241,7 +241,7 @@ def script_of(line):
 
 
 def oracle(case, real, model):
-    if model in ("[8]", "[9]") or real in ("[8]", "[9]"):
+    if model in ("[-8888]", "[-9999]") or real in ("[-8888]", "[-9999]"):
         return "an executor rejected the request line (generator defect, not a verdict): real %s model %s" % (real, model)
     if real in ("[3]", "[4]"):
         return ("the history did not return: goexec watchdog verdict %s (a call ran for seconds or the heap grew past the limit / the process "
